@@ -2,6 +2,7 @@ CONSTANTS
   Dev = {"BugMemberOrder"}
   Alphabet <- AlphaOrd
   MaxLen = 5
+  Prune = TRUE
   DepthProbe = {256}
 INIT Init
 NEXT Next
